@@ -212,6 +212,10 @@ def run(check):
     # "a '+depths' map": the helpers every result's provenance map goes through always give the map its own '+depths' entry,
     # whatever the input map has (the rest of their contracts is C08's business)
     from ..rules_protocol import rule_source_helpers
+    from ..rules_defuse import rule_definite_assignment
+    check.run_rule('C15.R11', lambda c: rule_definite_assignment(
+        c, 'C15.R11', ['_signatures:merge', '_signatures:embed', '_signatures:mask', '_signatures:forwards', '_signatures:sort_params',
+                       '_signatures:apply_params'], 'is not a ValueError'))
     from ..rules_embed import rule_accumulator_by_position
     check.run_rule('C15.R10', lambda c: rule_accumulator_by_position(c, 'C15.R10'))
     check.run_rule('C15.R9', lambda c: rule_source_helpers(c, {'depths': 'C15.R9', 'arith': None, 'dedup': None, 'complete': None}))
